@@ -150,5 +150,9 @@ func (f Descent) locate(pp Expr, data any, rest Expr, max int) (locs []Expr) {
 
 // Walk each element in the tree of elements.
 func (f Descent) Walk(rest, path Expr, nodes []any, cb func(path Expr, nodes []any)) {
+	// The rest of the path applies to the element itself as well, as in Get.
+	if 0 < len(rest) {
+		rest[0].Walk(rest[1:], path, nodes, cb)
+	}
 	wildWalk(rest, path, nodes, cb, f)
 }
